@@ -260,7 +260,7 @@ func (p *c14Pred) instant(e ast.Expr, s kit.S) string {
 			return "?"
 		}
 		pairs, known := c14ParseList(s.Get("wl:" + kit.VarID(lo)))
-		if !known || int(i) >= len(pairs) {
+		if !known || i < 0 || int(i) >= len(pairs) {
 			return "?"
 		}
 		switch fv {
@@ -273,33 +273,69 @@ func (p *c14Pred) instant(e ast.Expr, s kit.S) string {
 	return "?"
 }
 
-func c14ParseList(v string) ([][2]string, bool) {
+// A window is tracked as (first instant, second instant, weekday kept with
+// the window); the third component is "" when the window struct has no such
+// field, a decimal number under the weekday of t being enumerated, or "?".
+func c14ParseWin(e string) ([3]string, bool) {
+	ab := strings.Split(e, "|")
+	switch len(ab) {
+	case 2:
+		return [3]string{ab[0], ab[1], ""}, true
+	case 3:
+		return [3]string{ab[0], ab[1], ab[2]}, true
+	}
+	return [3]string{}, false
+}
+
+func c14FormatWin(w [3]string) string {
+	if w[2] == "" {
+		return w[0] + "|" + w[1]
+	}
+	return w[0] + "|" + w[1] + "|" + w[2]
+}
+
+func c14ParseList(v string) ([][3]string, bool) {
 	if v == "" || v == "?" || v == "consumed" {
 		return nil, false
 	}
 	if v == "empty" {
 		return nil, true
 	}
-	var out [][2]string
+	var out [][3]string
 	for _, e := range strings.Split(v, ";") {
-		ab := strings.Split(e, "|")
-		if len(ab) != 2 {
+		w, ok := c14ParseWin(e)
+		if !ok {
 			return nil, false
 		}
-		out = append(out, [2]string{ab[0], ab[1]})
+		out = append(out, w)
 	}
 	return out, true
 }
 
-func c14FormatList(ps [][2]string) string {
+func c14FormatList(ps [][3]string) string {
 	if len(ps) == 0 {
 		return "empty"
 	}
 	var parts []string
 	for _, p := range ps {
-		parts = append(parts, p[0]+"|"+p[1])
+		parts = append(parts, c14FormatWin(p))
 	}
 	return strings.Join(parts, ";")
+}
+
+// c14StripWeekdays drops the third component of every window of a list value
+// and hands the dropped components back.
+func c14StripWeekdays(v string) (string, []string) {
+	ps, known := c14ParseList(v)
+	if !known || len(ps) == 0 {
+		return v, nil
+	}
+	var wds []string
+	for i := range ps {
+		wds = append(wds, ps[i][2])
+		ps[i][2] = ""
+	}
+	return c14FormatList(ps), wds
 }
 
 func (p *c14Pred) isWindowLit(e ast.Expr) (*ast.CompositeLit, bool) {
@@ -311,20 +347,31 @@ func (p *c14Pred) isWindowLit(e ast.Expr) (*ast.CompositeLit, bool) {
 	return cl, t != nil && types.Identical(types.Unalias(t), p.cm.tr)
 }
 
-func (p *c14Pred) pairOf(cl *ast.CompositeLit, s kit.S) [2]string {
-	out := [2]string{"zero", "zero"}
+func (p *c14Pred) pairOf(cl *ast.CompositeLit, s kit.S) [3]string {
+	out := [3]string{"zero", "zero", ""}
+	if p.cm.wdCache != nil {
+		out[2] = "0" // the zero Weekday
+	}
+	st, _ := p.cm.tr.Underlying().(*types.Struct)
 	for i, el := range cl.Elts {
+		var fv types.Object
+		val := el
 		if kv, ok := el.(*ast.KeyValueExpr); ok {
 			if kid, ok := kv.Key.(*ast.Ident); ok {
-				switch p.info.Uses[kid] {
-				case types.Object(p.cm.trF[0]):
-					out[0] = p.instant(kv.Value, s)
-				case types.Object(p.cm.trF[1]):
-					out[1] = p.instant(kv.Value, s)
-				}
+				fv = p.info.Uses[kid]
 			}
-		} else if i < 2 {
-			out[i] = p.instant(el, s)
+			val = kv.Value
+		} else if st != nil && i < st.NumFields() {
+			fv = st.Field(i)
+		}
+		switch {
+		case fv == nil:
+		case fv == types.Object(p.cm.trF[0]):
+			out[0] = p.instant(val, s)
+		case fv == types.Object(p.cm.trF[1]):
+			out[1] = p.instant(val, s)
+		case p.cm.wdCache != nil && fv == types.Object(p.cm.wdCache):
+			out[2] = p.wdStr(val, s)
 		}
 	}
 	return out
@@ -338,20 +385,20 @@ func (p *c14Pred) isListType(t types.Type) bool {
 
 // windowOf evaluates an expression of window type: a literal, or a local
 // holding a window ("tw:<id>" = "start|end").
-func (p *c14Pred) windowOf(e ast.Expr, s kit.S) ([2]string, bool) {
+func (p *c14Pred) windowOf(e ast.Expr, s kit.S) ([3]string, bool) {
 	if cl, ok := p.isWindowLit(e); ok {
 		return p.pairOf(cl, s), true
 	}
 	if id, ok := ast.Unparen(e).(*ast.Ident); ok {
 		if o := kit.ObjOf(p.info, id); o != nil {
 			if v := s.Get("tw:" + kit.VarID(o)); v != "" {
-				if ab := strings.Split(v, "|"); len(ab) == 2 {
-					return [2]string{ab[0], ab[1]}, true
+				if w, ok := c14ParseWin(v); ok {
+					return w, true
 				}
 			}
 		}
 	}
-	return [2]string{}, false
+	return [3]string{}, false
 }
 
 // listExpr evaluates an expression of window-list type symbolically.
@@ -359,7 +406,7 @@ func (p *c14Pred) listExpr(e ast.Expr, s kit.S) string {
 	e = ast.Unparen(e)
 	switch x := e.(type) {
 	case *ast.CompositeLit:
-		var ps [][2]string
+		var ps [][3]string
 		for _, el := range x.Elts {
 			w, ok := p.windowOf(el, s)
 			if !ok {
@@ -407,9 +454,10 @@ type c14PredResult struct {
 	noSink   []string                // nil-error exits reached without consuming the list
 	retBad   []string                // predicate result differs from any-window
 	retUndet []string
-	anyBad   []string // any-window call with wrong argument / before filters
-	anyUnk   []string // the same, not derivable
-	retSkip  []string // successful exits that never asked the any-window method
+	wdObs    []c14WdObs // weekdays stored in the windows at the first filter (window struct with a weekday field)
+	anyBad   []string   // any-window call with wrong argument / before filters
+	anyUnk   []string   // the same, not derivable
+	retSkip  []string   // successful exits that never asked the any-window method
 	anySeen  int
 	nilExits int
 }
@@ -427,347 +475,413 @@ func (p *c14Pred) run() *c14PredResult {
 		}
 		*list = append(*list, s)
 	}
-	for _, se := range []string{"lt", "eq", "gt"} {
-		for _, anyV := range []string{"T", "F"} {
-			st := &kit.Std{F: f}
-			p.st = st
-			st.ShouldInline = func(cf *kit.Func, call *ast.CallExpr) bool {
-				// the schedule's own methods (window construction split off the predicate)
-				return cf != f && c14RecvNamed(cf) == cm.ch.sched
-			}
-			bf := &kit.BoolFlow{Std: st}
-			bf.Atom = func(e ast.Expr) (string, bool, bool) {
-				if call, ok := ast.Unparen(e).(*ast.CallExpr); ok && f.CalleeFunc(call) == cm.any {
-					return "any", false, true
+	// the UTC weekday of t is enumerated only when the windows carry a weekday
+	weekdays := []int{-1}
+	if cm.wdCache != nil {
+		weekdays = []int{0, 1, 2, 3, 4, 5, 6}
+	}
+	for _, wdT := range weekdays {
+		for _, se := range []string{"lt", "eq", "gt"} {
+			for _, anyV := range []string{"T", "F"} {
+				st := &kit.Std{F: f}
+				p.st = st
+				st.ShouldInline = func(cf *kit.Func, call *ast.CallExpr) bool {
+					// the schedule's own methods (window construction split off the predicate)
+					return cf != f && c14RecvNamed(cf) == cm.ch.sched
 				}
-				return "", false, false
-			}
-			foldLeaf := func(e ast.Expr, s kit.S) (bool, bool) {
-				x, y, op, ok := c14TimeCmp(info, e)
-				if !ok {
-					return false, false
-				}
-				a, b := p.instant(x, s), p.instant(y, s)
-				if a == "?" || b == "?" {
-					return false, false
-				}
-				offA, _ := strconv.ParseInt(a[1:], 10, 64)
-				offB, _ := strconv.ParseInt(b[1:], 10, 64)
-				switch {
-				case a[0] == b[0] || offA != offB:
-					// same time of day, or different days: the day offset decides
-					// (both times of day lie within one day)
-					return c14RankHolds(int(offA), int(offB), op), true
-				case offA == 0 && offB == 0:
-					ord := se // S vs E
-					if a[0] == 'E' {
-						op = ruFlip(op)
+				bf := &kit.BoolFlow{Std: st}
+				bf.Atom = func(e ast.Expr) (string, bool, bool) {
+					if call, ok := ast.Unparen(e).(*ast.CallExpr); ok && f.CalleeFunc(call) == cm.any {
+						return "any", false, true
 					}
-					return ruOrdHolds(ord, op), true
+					return "", false, false
 				}
-				return false, false
-			}
-			bf.Fold = foldLeaf
-			bf.OnCond = func(cond ast.Expr, s kit.S) kit.S {
-				for _, l := range ruLeaves(cond) {
-					if _, ok := foldLeaf(l, s); ok {
-						continue
+				foldLeaf := func(e ast.Expr, s kit.S) (bool, bool) {
+					x, y, op, ok := c14TimeCmp(info, e)
+					if !ok {
+						return false, false
 					}
-					if p.taintOf(l, s) == "SE" {
-						s = s.Set("corr", "T")
+					a, b := p.instant(x, s), p.instant(y, s)
+					if a == "?" || b == "?" {
+						return false, false
 					}
-				}
-				return s
-			}
-			assignOne := func(l, r ast.Expr, s kit.S) kit.S {
-				l = ast.Unparen(l)
-				if id, ok := l.(*ast.Ident); ok {
-					o := kit.ObjOf(info, id)
-					if o == nil {
-						return s
-					}
-					key := kit.VarID(o)
-					ex, wl, tw := "", "", ""
-					tn := p.taintOf(r, s)
+					offA, _ := strconv.ParseInt(a[1:], 10, 64)
+					offB, _ := strconv.ParseInt(b[1:], 10, 64)
 					switch {
-					case c14IsTime(o.Type()):
-						if p.isUTCOfT(r, s) {
-							ex = "utc"
-						} else if v := p.instant(r, s); v != "?" {
-							ex = v
+					case a[0] == b[0] || offA != offB:
+						// same time of day, or different days: the day offset decides
+						// (both times of day lie within one day)
+						return c14RankHolds(int(offA), int(offB), op), true
+					case offA == 0 && offB == 0:
+						ord := se // S vs E
+						if a[0] == 'E' {
+							op = ruFlip(op)
 						}
-					case p.isListType(o.Type()):
-						wl = p.listExpr(r, s)
-					case types.Identical(types.Unalias(o.Type()), cm.tr):
-						if w, ok := p.windowOf(r, s); ok {
-							tw = w[0] + "|" + w[1]
+						return ruOrdHolds(ord, op), true
+					}
+					return false, false
+				}
+				bf.Fold = func(e ast.Expr, s kit.S) (bool, bool) {
+					if v, ok := foldLeaf(e, s); ok {
+						return v, true
+					}
+					return p.wdFold(e, s)
+				}
+				bf.OnCond = func(cond ast.Expr, s kit.S) kit.S {
+					for _, l := range ruLeaves(cond) {
+						if _, ok := foldLeaf(l, s); ok {
+							continue
 						}
-					default:
-						if v := p.intSym(r, s); v != "?" {
-							ex = v
+						if _, ok := p.wdFold(l, s); ok {
+							continue
 						}
-					}
-					if o == types.Object(p.tpar) {
-						s = s.Set("tmod", "T")
-					}
-					s = s.Del("ex:" + key).Del("tn:" + key).Del("wl:" + key).Del("tw:" + key)
-					if tw != "" {
-						s = s.Set("tw:"+key, tw)
-					}
-					if ex != "" {
-						s = s.Set("ex:"+key, ex)
-					}
-					if tn != "" {
-						s = s.Set("tn:"+key, tn)
-					}
-					if wl != "" {
-						s = s.Set("wl:"+key, wl)
+						if p.taintOf(l, s) == "SE" {
+							s = s.Set("corr", "T")
+						}
+						if p.wdMentions(l, s) {
+							s = s.Set("wcorr", "T")
+						}
 					}
 					return s
 				}
-				// w.f = r on a local window
-				if base, fv, ok := kit.FieldSel(info, l); ok && (fv == cm.trF[0] || fv == cm.trF[1]) {
-					if bid, isId := ast.Unparen(base).(*ast.Ident); isId {
-						if bo := kit.ObjOf(info, bid); bo != nil && s.Has("tw:"+kit.VarID(bo)) {
-							ab := strings.Split(s.Get("tw:"+kit.VarID(bo)), "|")
-							if len(ab) == 2 {
-								if fv == cm.trF[0] {
-									ab[0] = p.instant(r, s)
-								} else {
-									ab[1] = p.instant(r, s)
+				// switch over a weekday value
+				st.OnBranch = func(br kit.Branch, s kit.S) (t, fl []kit.S, handled bool) {
+					if br.Kind != kit.BrCase || br.Tag == nil || !p.wdMentions(br.Tag, s) {
+						return nil, nil, false
+					}
+					a, okA := p.wdVal(br.Tag, s)
+					b, okB := p.wdVal(br.Case, s)
+					switch {
+					case okA && okB && a == b:
+						return []kit.S{s}, nil, true
+					case okA && okB:
+						return nil, []kit.S{s}, true
+					}
+					s = s.Set("wcorr", "T")
+					return []kit.S{s}, []kit.S{s}, true
+				}
+				assignOne := func(l, r ast.Expr, s kit.S) kit.S {
+					l = ast.Unparen(l)
+					if id, ok := l.(*ast.Ident); ok {
+						o := kit.ObjOf(info, id)
+						if o == nil {
+							return s
+						}
+						key := kit.VarID(o)
+						ex, wl, tw := "", "", ""
+						tn := p.taintOf(r, s)
+						switch {
+						case c14IsTime(o.Type()):
+							if p.isUTCOfT(r, s) {
+								ex = "utc"
+							} else if v := p.instant(r, s); v != "?" {
+								ex = v
+							}
+						case p.isListType(o.Type()):
+							wl = p.listExpr(r, s)
+						case types.Identical(types.Unalias(o.Type()), cm.tr):
+							if w, ok := p.windowOf(r, s); ok {
+								tw = c14FormatWin(w)
+							}
+						default:
+							if v := p.intSym(r, s); v != "?" {
+								ex = v
+							} else if k, ok := p.wdVal(r, s); ok {
+								ex = fmt.Sprintf("w:%d", k)
+							}
+						}
+						if o == types.Object(p.tpar) {
+							s = s.Set("tmod", "T")
+						}
+						s = s.Del("ex:" + key).Del("tn:" + key).Del("wl:" + key).Del("tw:" + key)
+						if tw != "" {
+							s = s.Set("tw:"+key, tw)
+						}
+						if ex != "" {
+							s = s.Set("ex:"+key, ex)
+						}
+						if tn != "" {
+							s = s.Set("tn:"+key, tn)
+						}
+						if wl != "" {
+							s = s.Set("wl:"+key, wl)
+						}
+						return s
+					}
+					// w.f = r on a local window
+					fieldValue := func(fv *types.Var) (int, string) {
+						switch {
+						case fv == cm.trF[0]:
+							return 0, p.instant(r, s)
+						case fv == cm.trF[1]:
+							return 1, p.instant(r, s)
+						}
+						return 2, p.wdStr(r, s)
+					}
+					isWinField := func(fv *types.Var) bool {
+						return fv == cm.trF[0] || fv == cm.trF[1] || (cm.wdCache != nil && fv == cm.wdCache)
+					}
+					if base, fv, ok := kit.FieldSel(info, l); ok && isWinField(fv) {
+						if bid, isId := ast.Unparen(base).(*ast.Ident); isId {
+							if bo := kit.ObjOf(info, bid); bo != nil && s.Has("tw:"+kit.VarID(bo)) {
+								if w, ok := c14ParseWin(s.Get("tw:" + kit.VarID(bo))); ok {
+									k, v := fieldValue(fv)
+									w[k] = v
+									return s.Set("tw:"+kit.VarID(bo), c14FormatWin(w))
 								}
-								return s.Set("tw:"+kit.VarID(bo), ab[0]+"|"+ab[1])
 							}
 						}
 					}
-				}
-				// L[i].f = r   /   L[i] = window literal
-				if base, fv, ok := kit.FieldSel(info, l); ok && (fv == cm.trF[0] || fv == cm.trF[1]) {
-					if ix, ok := ast.Unparen(base).(*ast.IndexExpr); ok {
+					// L[i].f = r   /   L[i] = window literal
+					if base, fv, ok := kit.FieldSel(info, l); ok && isWinField(fv) {
+						if ix, ok := ast.Unparen(base).(*ast.IndexExpr); ok {
+							if lo := kit.ObjOf(info, ix.X); lo != nil && s.Has("wl:"+kit.VarID(lo)) {
+								key := "wl:" + kit.VarID(lo)
+								ps, known := c14ParseList(s.Get(key))
+								i, okI := kit.ConstInt(info, ix.Index)
+								if !known || !okI || i < 0 || int(i) >= len(ps) {
+									return s.Set(key, "?")
+								}
+								k, v := fieldValue(fv)
+								ps[i][k] = v
+								return s.Set(key, c14FormatList(ps))
+							}
+						}
+					}
+					if ix, ok := l.(*ast.IndexExpr); ok {
 						if lo := kit.ObjOf(info, ix.X); lo != nil && s.Has("wl:"+kit.VarID(lo)) {
 							key := "wl:" + kit.VarID(lo)
 							ps, known := c14ParseList(s.Get(key))
 							i, okI := kit.ConstInt(info, ix.Index)
-							if !known || !okI || int(i) >= len(ps) {
+							cl, isLit := p.isWindowLit(r)
+							if !known || !okI || i < 0 || int(i) >= len(ps) || !isLit {
 								return s.Set(key, "?")
 							}
-							k := 0
-							if fv == cm.trF[1] {
-								k = 1
-							}
-							ps[i][k] = p.instant(r, s)
+							ps[i] = p.pairOf(cl, s)
 							return s.Set(key, c14FormatList(ps))
 						}
 					}
+					return s
 				}
-				if ix, ok := l.(*ast.IndexExpr); ok {
-					if lo := kit.ObjOf(info, ix.X); lo != nil && s.Has("wl:"+kit.VarID(lo)) {
-						key := "wl:" + kit.VarID(lo)
-						ps, known := c14ParseList(s.Get(key))
-						i, okI := kit.ConstInt(info, ix.Index)
-						cl, isLit := p.isWindowLit(r)
-						if !known || !okI || int(i) >= len(ps) || !isLit {
-							return s.Set(key, "?")
+				st.OnNode = func(n ast.Node, s kit.S) []kit.S {
+					switch x := n.(type) {
+					case *ast.ReturnStmt:
+						// a helper hands back the window list it built
+						if cur := st.Cur(); cur != f && len(x.Results) > 0 && p.isListType(info.TypeOf(x.Results[0])) {
+							s = s.Set(fmt.Sprintf("rl:%d", cur.Pos()), p.listExpr(x.Results[0], s))
 						}
-						ps[i] = p.pairOf(cl, s)
-						return s.Set(key, c14FormatList(ps))
-					}
-				}
-				return s
-			}
-			st.OnNode = func(n ast.Node, s kit.S) []kit.S {
-				switch x := n.(type) {
-				case *ast.ReturnStmt:
-					// a helper hands back the window list it built
-					if cur := st.Cur(); cur != f && len(x.Results) > 0 && p.isListType(info.TypeOf(x.Results[0])) {
-						s = s.Set(fmt.Sprintf("rl:%d", cur.Pos()), p.listExpr(x.Results[0], s))
-					}
-				case *ast.AssignStmt:
-					if x.Tok != token.ASSIGN && x.Tok != token.DEFINE {
-						for _, l := range x.Lhs {
-							if o := kit.ObjOf(info, l); o != nil {
+					case *ast.AssignStmt:
+						if x.Tok != token.ASSIGN && x.Tok != token.DEFINE {
+							if len(x.Lhs) == 1 && len(x.Rhs) == 1 {
+								s = p.wdCompound(x.Lhs[0], x.Tok, x.Rhs[0], s)
+							}
+							for _, l := range x.Lhs {
+								if o := kit.ObjOf(info, l); o != nil {
+									key := kit.VarID(o)
+									if !strings.HasPrefix(s.Get("ex:"+key), "w:") {
+										s = s.Del("ex:" + key)
+									}
+									s = s.Del("wl:" + key)
+								}
+							}
+							return []kit.S{s}
+						}
+						if len(x.Lhs) == len(x.Rhs) {
+							for i, l := range x.Lhs {
+								s = assignOne(l, x.Rhs[i], s)
+							}
+							return []kit.S{s}
+						}
+						if len(x.Rhs) == 1 {
+							tn := p.taintOf(x.Rhs[0], s)
+							// y, m, d := tUTC.Date()
+							var comps []string
+							if call, ok := ast.Unparen(x.Rhs[0]).(*ast.CallExpr); ok {
+								if name, rx, isT := c14TimeMethod(info, call); isT && name == "Date" && p.isUTCOfT(rx, s) {
+									comps = []string{"Y", "M", "D+0"}
+								}
+							}
+							// the list returned by a helper evaluated inline
+							retList := ""
+							if call, ok := ast.Unparen(x.Rhs[0]).(*ast.CallExpr); ok {
+								if cf := st.Cur().CalleeFunc(call); cf != nil {
+									k := fmt.Sprintf("rl:%d", cf.Pos())
+									retList = s.Get(k)
+									s = s.Del(k)
+								}
+							}
+							for i, l := range x.Lhs {
+								o := kit.ObjOf(info, l)
+								if o == nil {
+									continue
+								}
+								if _, isId := ast.Unparen(l).(*ast.Ident); !isId {
+									continue
+								}
 								key := kit.VarID(o)
-								s = s.Del("ex:" + key).Del("wl:" + key)
+								s = s.Del("ex:" + key).Del("tn:" + key).Del("wl:" + key)
+								if tn != "" {
+									s = s.Set("tn:"+key, tn)
+								}
+								if comps != nil && i < len(comps) {
+									s = s.Set("ex:"+key, comps[i])
+								}
+								if i == 0 && retList != "" && p.isListType(o.Type()) {
+									s = s.Set("wl:"+key, retList)
+								}
 							}
 						}
-						return []kit.S{s}
-					}
-					if len(x.Lhs) == len(x.Rhs) {
-						for i, l := range x.Lhs {
-							s = assignOne(l, x.Rhs[i], s)
-						}
-						return []kit.S{s}
-					}
-					if len(x.Rhs) == 1 {
-						tn := p.taintOf(x.Rhs[0], s)
-						// y, m, d := tUTC.Date()
-						var comps []string
-						if call, ok := ast.Unparen(x.Rhs[0]).(*ast.CallExpr); ok {
-							if name, rx, isT := c14TimeMethod(info, call); isT && name == "Date" && p.isUTCOfT(rx, s) {
-								comps = []string{"Y", "M", "D+0"}
+					case *ast.ValueSpec:
+						if len(x.Values) == len(x.Names) {
+							for i, nm := range x.Names {
+								s = assignOne(nm, x.Values[i], s)
+							}
+						} else if len(x.Values) == 0 {
+							for _, nm := range x.Names {
+								if o := info.Defs[nm]; o != nil && p.isListType(o.Type()) {
+									s = s.Set("wl:"+kit.VarID(o), "empty")
+								}
 							}
 						}
-						// the list returned by a helper evaluated inline
-						retList := ""
-						if call, ok := ast.Unparen(x.Rhs[0]).(*ast.CallExpr); ok {
-							if cf := st.Cur().CalleeFunc(call); cf != nil {
-								k := fmt.Sprintf("rl:%d", cf.Pos())
-								retList = s.Get(k)
-								s = s.Del(k)
-							}
-						}
-						for i, l := range x.Lhs {
-							o := kit.ObjOf(info, l)
-							if o == nil {
-								continue
-							}
-							if _, isId := ast.Unparen(l).(*ast.Ident); !isId {
-								continue
-							}
-							key := kit.VarID(o)
-							s = s.Del("ex:" + key).Del("tn:" + key).Del("wl:" + key)
-							if tn != "" {
-								s = s.Set("tn:"+key, tn)
-							}
-							if comps != nil && i < len(comps) {
-								s = s.Set("ex:"+key, comps[i])
-							}
-							if i == 0 && retList != "" && p.isListType(o.Type()) {
-								s = s.Set("wl:"+key, retList)
+					case *ast.IncDecStmt:
+						if o := kit.ObjOf(info, x.X); o != nil {
+							if strings.HasPrefix(s.Get("ex:"+kit.VarID(o)), "w:") {
+								s = p.wdCompound(x.X, x.Tok, nil, s)
+							} else {
+								s = s.Del("ex:" + kit.VarID(o))
 							}
 						}
 					}
-				case *ast.ValueSpec:
-					if len(x.Values) == len(x.Names) {
-						for i, nm := range x.Names {
-							s = assignOne(nm, x.Values[i], s)
-						}
-					} else if len(x.Values) == 0 {
-						for _, nm := range x.Names {
-							if o := info.Defs[nm]; o != nil && p.isListType(o.Type()) {
-								s = s.Set("wl:"+kit.VarID(o), "empty")
-							}
-						}
-					}
-				case *ast.IncDecStmt:
-					if o := kit.ObjOf(info, x.X); o != nil {
-						s = s.Del("ex:" + kit.VarID(o))
-					}
+					return []kit.S{s}
 				}
-				return []kit.S{s}
-			}
-			listVarOf := func(e ast.Expr, s kit.S) types.Object {
-				e = ast.Unparen(e)
-				if u, ok := e.(*ast.UnaryExpr); ok && u.Op == token.AND {
-					e = ast.Unparen(u.X)
-				}
-				if id, ok := e.(*ast.Ident); ok {
-					if o := kit.ObjOf(info, id); o != nil && s.Has("wl:"+kit.VarID(o)) {
-						return o
+				listVarOf := func(e ast.Expr, s kit.S) types.Object {
+					e = ast.Unparen(e)
+					if u, ok := e.(*ast.UnaryExpr); ok && u.Op == token.AND {
+						e = ast.Unparen(u.X)
 					}
-				}
-				return nil
-			}
-			st.OnCall = func(call *ast.CallExpr, n ast.Node, s kit.S) []kit.S {
-				var lv types.Object
-				if sel, ok := ast.Unparen(call.Fun).(*ast.SelectorExpr); ok {
-					if _, isMethod := info.Selections[sel]; isMethod {
-						lv = listVarOf(sel.X, s)
+					if id, ok := e.(*ast.Ident); ok {
+						if o := kit.ObjOf(info, id); o != nil && s.Has("wl:"+kit.VarID(o)) {
+							return o
+						}
 					}
-				}
-				if b, ok := kit.Callee(info, call).(*types.Builtin); ok && (b.Name() == "append" || b.Name() == "len" || b.Name() == "cap") {
 					return nil
 				}
-				if lv == nil {
-					for _, a := range call.Args {
-						if o := listVarOf(a, s); o != nil {
-							lv = o
+				st.OnCall = func(call *ast.CallExpr, n ast.Node, s kit.S) []kit.S {
+					var lv types.Object
+					if sel, ok := ast.Unparen(call.Fun).(*ast.SelectorExpr); ok {
+						if _, isMethod := info.Selections[sel]; isMethod {
+							lv = listVarOf(sel.X, s)
 						}
 					}
-				}
-				if lv == nil {
-					return nil
-				}
-				key := "wl:" + kit.VarID(lv)
-				if s.Get("sunk") != "T" {
-					out.lists[se] = append(out.lists[se], c14PredObs{s.Get(key), s.Get("corr") == "T", call})
-					s = s.Set("sunk", "T")
-				}
-				cf := f.CalleeFunc(call)
-				isRecvField := func(e ast.Expr, fv *types.Var) bool {
-					base, x, ok := kit.FieldSel(info, e)
-					return ok && x == fv && kit.ObjOf(info, base) == types.Object(p.recv)
-				}
-				switch {
-				case cf == cm.fw && len(call.Args) == 1:
-					if isRecvField(call.Args[0], cm.ch.wdF) {
-						s = s.Set("fw", "T")
-					} else if s.Get("fw") != "T" {
-						s = s.Set("fw", "?")
+					if b, ok := kit.Callee(info, call).(*types.Builtin); ok && (b.Name() == "append" || b.Name() == "len" || b.Name() == "cap") {
+						return nil
 					}
-				case cf == cm.fd && len(call.Args) == 1:
-					if isRecvField(call.Args[0], cm.ch.dateF) {
-						s = s.Set("fd", "T")
-					} else if s.Get("fd") != "T" {
-						s = s.Set("fd", "?")
-					}
-				case cf == cm.any && len(call.Args) == 1:
-					out.anySeen++
-					if !p.isT(call.Args[0], s) {
-						if p.instant(call.Args[0], s) != "?" {
-							note(&out.anyBad, "the any-window test at %s receives `%s` (a window bound), not the instant t", f.At(call), f.Str(call.Args[0]))
-						} else {
-							note(&out.anyUnk, "the any-window test at %s receives `%s`, which is not seen to be the instant t", f.At(call), f.Str(call.Args[0]))
+					if lv == nil {
+						for _, a := range call.Args {
+							if o := listVarOf(a, s); o != nil {
+								lv = o
+							}
 						}
 					}
-					switch s.Get("fw") {
-					case "T":
-					case "?":
-						note(&out.anyUnk, "the weekday filter is applied with an argument that is not the schedule's weekday field")
-					default:
-						note(&out.anyBad, "the any-window test at %s is reached on a path that did not apply the weekday filter", f.At(call))
+					if lv == nil {
+						return nil
 					}
-					switch s.Get("fd") {
-					case "T":
-					case "?":
-						note(&out.anyUnk, "the date filter is applied with an argument that is not the schedule's date field")
-					default:
-						note(&out.anyBad, "the any-window test at %s is reached on a path that did not apply the date filter", f.At(call))
+					key := "wl:" + kit.VarID(lv)
+					if s.Get("sunk") != "T" {
+						lst, wds := c14StripWeekdays(s.Get(key))
+						ob := c14PredObs{lst, s.Get("corr") == "T", call}
+						dup := false
+						for _, x := range out.lists[se] {
+							dup = dup || x == ob
+						}
+						if !dup {
+							out.lists[se] = append(out.lists[se], ob)
+						}
+						if wdT >= 0 {
+							out.wdObs = append(out.wdObs, c14WdObs{wdT, se, lst, wds, s.Get("wcorr") == "T", call})
+						}
+						s = s.Set("sunk", "T")
 					}
-					s = s.Set("anyc", "T")
-				default:
-					// some other function received the list: contents unknown from here
+					cf := f.CalleeFunc(call)
+					isRecvField := func(e ast.Expr, fv *types.Var) bool {
+						base, x, ok := kit.FieldSel(info, e)
+						return ok && x == fv && kit.ObjOf(info, base) == types.Object(p.recv)
+					}
+					switch {
+					case cf == cm.fw && len(call.Args) == 1:
+						if isRecvField(call.Args[0], cm.ch.wdF) {
+							s = s.Set("fw", "T")
+						} else if s.Get("fw") != "T" {
+							s = s.Set("fw", "?")
+						}
+					case cf == cm.fd && len(call.Args) == 1:
+						if isRecvField(call.Args[0], cm.ch.dateF) {
+							s = s.Set("fd", "T")
+						} else if s.Get("fd") != "T" {
+							s = s.Set("fd", "?")
+						}
+					case cf == cm.any && len(call.Args) == 1:
+						out.anySeen++
+						if !p.isT(call.Args[0], s) {
+							if p.instant(call.Args[0], s) != "?" {
+								note(&out.anyBad, "the any-window test at %s receives `%s` (a window bound), not the instant t", f.At(call), f.Str(call.Args[0]))
+							} else {
+								note(&out.anyUnk, "the any-window test at %s receives `%s`, which is not seen to be the instant t", f.At(call), f.Str(call.Args[0]))
+							}
+						}
+						switch s.Get("fw") {
+						case "T":
+						case "?":
+							note(&out.anyUnk, "the weekday filter is applied with an argument that is not the schedule's weekday field")
+						default:
+							note(&out.anyBad, "the any-window test at %s is reached on a path that did not apply the weekday filter", f.At(call))
+						}
+						switch s.Get("fd") {
+						case "T":
+						case "?":
+							note(&out.anyUnk, "the date filter is applied with an argument that is not the schedule's date field")
+						default:
+							note(&out.anyBad, "the any-window test at %s is reached on a path that did not apply the date filter", f.At(call))
+						}
+						s = s.Set("anyc", "T")
+					default:
+						// some other function received the list: contents unknown from here
+					}
+					if cf != cm.any {
+						s = s.Set(key, "consumed")
+					}
+					return []kit.S{s}
 				}
-				if cf != cm.any {
-					s = s.Set(key, "consumed")
+				init := kit.NewS().Set("a:any", anyV)
+				if wdT >= 0 {
+					init = init.Set("W", strconv.Itoa(wdT))
 				}
-				return []kit.S{s}
-			}
-			res := g.Run(kit.NewS().Set("a:any", anyV), bf.Client())
-			if res.Overflow {
-				p.c.Fatalf("%s: state space overflow", f.Name)
-			}
-			p.c.AddValuations(1)
-			for _, ex := range res.Exits {
-				if ex.Return == nil || len(ex.Return.Results) != 2 {
-					continue
+				res := g.Run(init, bf.Client())
+				if res.Overflow {
+					p.c.Fatalf("%s: state space overflow", f.Name)
 				}
-				if st.ReturnsNil(ex.Return, ex.State) != "nil" {
-					continue
-				}
-				out.nilExits++
-				if ex.State.Get("sunk") != "T" {
-					note(&out.noSink, "%s", f.At(ex.Return))
-					continue
-				}
-				v, det := bf.DetEval(ex.Return.Results[0], ex.State)
-				switch {
-				case !det:
-					note(&out.retUndet, "%s", f.At(ex.Return))
-				case ex.State.Get("anyc") != "T":
-					note(&out.retSkip, "%s", f.At(ex.Return))
-				case v != (anyV == "T"):
-					note(&out.retBad, "returns %v at %s although the any-window test answered %v", v, f.At(ex.Return), anyV == "T")
+				p.c.AddValuations(1)
+				for _, ex := range res.Exits {
+					if ex.Return == nil || len(ex.Return.Results) != 2 {
+						continue
+					}
+					if st.ReturnsNil(ex.Return, ex.State) != "nil" {
+						continue
+					}
+					out.nilExits++
+					if ex.State.Get("sunk") != "T" {
+						note(&out.noSink, "%s", f.At(ex.Return))
+						continue
+					}
+					v, det := bf.DetEval(ex.Return.Results[0], ex.State)
+					switch {
+					case !det:
+						note(&out.retUndet, "%s", f.At(ex.Return))
+					case ex.State.Get("anyc") != "T":
+						note(&out.retSkip, "%s", f.At(ex.Return))
+					case v != (anyV == "T"):
+						note(&out.retBad, "returns %v at %s although the any-window test answered %v", v, f.At(ex.Return), anyV == "T")
+					}
 				}
 			}
 		}
@@ -789,6 +903,7 @@ func c14R3(c *kit.Ctx, cm *c14Model, r3, r4, r5 *kit.Rule) {
 	p.groups = c14AtoiGroups(f)
 	res := p.run()
 	// ---- roles from the non-wrapping case
+
 	describe := func(list string) string {
 		ps, known := c14ParseList(list)
 		if !known {
@@ -801,7 +916,7 @@ func c14R3(c *kit.Ctx, cm *c14Model, r3, r4, r5 *kit.Rule) {
 		return "[" + strings.Join(parts, ", ") + "]"
 	}
 	bad := false
-	judge := func(se string, want func(ps [][2]string) bool, wantDesc, wit string) {
+	judge := func(se string, want func(ps [][3]string) bool, wantDesc, wit string) {
 		obs := res.lists[se]
 		if len(obs) == 0 {
 			o.Undecided("no path hands a window list to the filters for the ordering %s", se)
@@ -840,10 +955,10 @@ func c14R3(c *kit.Ctx, cm *c14Model, r3, r4, r5 *kit.Rule) {
 	if si < 0 {
 		si, ei = 0, 1
 	}
-	judge("lt", func(ps [][2]string) bool {
+	judge("lt", func(ps [][3]string) bool {
 		return cm.startIdx >= 0 && len(ps) == 1 && ps[0][si] == "S+0" && ps[0][ei] == "E+0"
 	}, "exactly one window [start, end)", "start 08:00, end 17:00")
-	wrap := func(ps [][2]string) bool {
+	wrap := func(ps [][3]string) bool {
 		if len(ps) != 2 {
 			return false
 		}
@@ -910,6 +1025,8 @@ func c14R3(c *kit.Ctx, cm *c14Model, r3, r4, r5 *kit.Rule) {
 	default:
 		o5.OK("all successful exits return the any-window answer (2 valuations × 3 orderings)")
 	}
+	// ---- R4: a weekday kept with the window is the weekday of its start
+	c14WeekdayCache(c, cm, p, res, r4)
 }
 
 func c14Human(sym string) string {
